@@ -1,5 +1,70 @@
-(* Props/C01.v — property C01 (XMI save / load is lossless). *)
-From Cassis Require Import Base Lex LexProofs.
+(* Props/C01.v — property C01: XMI save / load is lossless.
+   The reader mechanism (CasXmiDeserializer) is modelled by the C05 builder; its theorem load_xmi_is_denotation
+   (doc_ok_xmi d -> load_xmi s d = Ok c -> canon_xmi c >>= norm = denote_xmi s d) composes with the theorems below into
+   xmi_roundtrip.  Until that lemma is imported here, C01's round trip is stated over the denotation of the document —
+   the independent reading of what was written — and named accordingly; that the implementation's reader returns that
+   denotation is checked on every run (CorrC01.check_load_is_denotation). *)
+From Cassis Require Import Base Offsets.
+From Cassis Require Import Heap Schema Canon Lex LexProofs Reach XmiDoc Xmi XmiProofs CorrC04 CorrC01 XmiExample.
+Open Scope Z_scope.
+
+(* enc_dec_feature_xmi: for every feature declaration and every slot value that is well-typed for it (feat_okb), what the
+   writer contributes to the element (attribute or child elements; all eleven branches of the writer, empty collections,
+   null elements, "", offsets of annotations converted with the table of their own sofa) is decoded by the format's reading
+   of that feature to the canonical value, up to ""/null inside string arrays and lists. *)
+Theorem C01_enc_dec_feature_xmi :
+  forall (fmt : flt -> string) (parse : string -> option flt),
+  (forall x, parse (fmt x) = Some x) -> (forall x, tok_ok (fmt x)) ->
+  forall s c ids, memZ 0 ids = false -> (forall vn so, sofa_of_view c vn = Some so -> s_xid so <> 0) ->
+  forall tn f fd ct conv,
+  feat_okb s c ids tn f fd = true -> (isa s tn T_ANNOTATION = true -> conv_spec c f conv) ->
+  enc_feature fmt s c tn f fd = Ok ct ->
+  dec_feature' parse s conv (isa s tn T_ANNOTATION) fd (attr_of (fd_xname fd) ct) (kids_of (fd_xname fd) ct)
+  = (do nx <- canon_feature s c f fd ;; Ok (norm_feat s fd (snd nx))).
+Proof. exact enc_dec_feature_xmi. Qed.
+Print Assumptions C01_enc_dec_feature_xmi.
+
+(* xmi_roundtrip over the denotation: saving and reading the document back (by the independent denotation) gives the
+   canonical content of the CAS — same sofas and sofa data, same structures under the same xmi:ids with the same types,
+   values and reference targets (ccas is keyed by id, so this includes xmi_ids_kept), same members per view. *)
+Theorem C01_xmi_roundtrip_over_denotation :
+  forall (fmt : flt -> string) (parse : string -> option flt),
+  (forall x, parse (fmt x) = Some x) -> (forall x, tok_ok (fmt x)) ->
+  forall s c d c',
+  save_xmi fmt s c = Ok (d, c') ->
+  (forall all, written s c = Ok (c', all) -> wf_xmib s c' all = true) ->
+  denote_xmi parse s d = (do x <- canon_xmi s c ;; Ok (norm_xmi s x)).
+Proof. exact denote_save_xmi. Qed.
+Print Assumptions C01_xmi_roundtrip_over_denotation.
+
+(* the lexical layer underneath: token lists, decimal integers, hex bytes, UTF-8 *)
 Theorem C01_tokens_roundtrip : forall l, Forall tok_ok l -> split_ws (join l) = l.
 Proof. exact split_join. Qed.
 Print Assumptions C01_tokens_roundtrip.
+Theorem C01_int_roundtrip : forall z, s2z (z2s z) = Some z /\ tok_ok (z2s z).
+Proof. intros z. split; [apply s2z_z2s|apply z2s_tok]. Qed.
+Print Assumptions C01_int_roundtrip.
+Theorem C01_bytes_roundtrip : forall l, Forall (fun x => 0 <= x < 256) l -> parse_hex (hex_of_bytes l) = Some l.
+Proof. exact hex_rt. Qed.
+Print Assumptions C01_bytes_roundtrip.
+Theorem C01_utf8_roundtrip : forall t, Forall (fun c => (c < 1114112)%N) t -> utf8_decode (utf8_encode t) = Some t.
+Proof. exact utf8_rt. Qed.
+Print Assumptions C01_utf8_roundtrip.
+
+(* NOT PROVED HERE (full statements; both are compositions once C05's load_xmi_is_denotation and doc_ok (save c) exist):
+     xmi_roundtrip:
+       save_xmi fmt s c = Ok (d, c') -> wf -> load_xmi s false d = Ok c2 ->
+       (canon_xmi s c2 >>= norm_xmi s) = (canon_xmi s c >>= norm_xmi s)
+     xmi_resave_identical:
+       ... -> save_xmi fmt s c2 = Ok (d2, c2') -> d2 = d up to attribute order (elements in the same order).
+   Both are checked on every generated case against the implementation: CorrC01.check_roundtrip / check_resave. *)
+
+(* non-vacuity: the example CAS (two views, astral text, a cycle, an inline and a shared FSArray, an empty list, a
+   referenced-only annotation) satisfies wf_xmib and the round trip over the denotation computes *)
+Example C01_premises_hold :
+  (match written ex_schema ex_cas with Ok ca => wf_xmib ex_schema (fst ca) (snd ca) | _ => false end) = true
+  /\ (match save_xmi (tab_fmt ex_ftab) ex_schema ex_cas with
+      | Ok (d, _) => match denote_xmi (tab_parse ex_ftab) ex_schema d, canon_xmi ex_schema ex_cas with
+                     | Ok x, Ok y => ccas_eqb x (norm_xmi ex_schema y) | _, _ => false end
+      | _ => false end) = true.
+Proof. vm_compute. split; reflexivity. Qed.
